@@ -25,9 +25,12 @@ Check(e) ==
          /\ MarkStrong(~Prop_RangeT(e.c, e.n, t, e.maxneg, e.max), "C20_RangeHigh", l)
     \* ---- pacing: dial instants (virtual ns since the start, digit sequences) of ONE subchannel ----
     [] e.ev = "pacecfg" -> cfg' = e.c /\ idx' = 0 /\ last' = <<0>>        \* c
-    [] e.ev = "dial" ->        \* t, first (no earlier attempt since the last success / reset)
-         \* the previous attempt failed idx times in a row: this one starts >= (1-j) * T(idx-1) after it began
+    [] e.ev = "dial" ->        \* t : the previous attempt (begun at `last`) was the idx-th failure in a row
+         \* this attempt starts >= (1-j) * T(idx-1) after the previous one began (Backoff(idx-1) was slept)
          /\ MarkStrong(idx >= 1 /\ ~Le(Add(RS(cfg, last), LoT(cfg, TargetP(cfg, idx - 1))), RS(cfg, Add(e.t, <<1>>))), "C20_Pace", l)
+         \* after a success / reset the index is 0 again: the first failure is followed by Backoff(0) = base (the scripted
+         \* dial fails at once, so the gap is the slept backoff; a quarter of base is allowed for anything else)
+         /\ MarkStrong(idx = 1 /\ ~Le(MulSmall(e.t, 4), Add(MulSmall(last, 4), MulSmall(cfg.base, 5))), "C20_IndexReset", l)
          /\ last' = e.t /\ UNCHANGED <<idx, cfg>>
     [] e.ev = "dialfail" -> idx' = idx + 1 /\ UNCHANGED <<last, cfg>>
     [] e.ev = "ready" -> idx' = 0 /\ UNCHANGED <<last, cfg>>
